@@ -45,7 +45,7 @@ Theorem C11_compile_eq_spec_partial : forall V C H render_o yload matches t pv,
   rerender V = false ->
   (forall text v, yload text = Ok v -> wf v = true) ->
   forall oc, item_ok V C H yload matches pv oc ->
-  result_data (compile V C H render_o yload matches t pv oc) = spec_result V C render_o yload matches t.
+  result_data (compile V C H render_o yload matches t pv oc) = spec_result V C H render_o yload matches t.
 Proof. exact compile_spec. Qed.
 Print Assumptions C11_compile_eq_spec_partial.
 
@@ -53,7 +53,7 @@ Print Assumptions C11_compile_eq_spec_partial.
 Theorem C11_compile_eq_spec : forall V C H render_o yload matches t pv,
   rerender V = false -> empty_raises V = false ->
   (forall text v, yload text = Ok v -> wf v = true) ->
-  result_data (compile V C H render_o yload matches t pv empty_item) = get_data_spec C render_o yload matches t.
+  result_data (compile V C H render_o yload matches t pv empty_item) = get_data_spec V C H render_o yload matches t.
 Proof.
   intros V C H render_o yload matches t pv Hr He Hy.
   rewrite (compile_spec V C H render_o yload matches t pv Hr Hy empty_item (item_ok_empty _ _ _ _ _ _)).
@@ -66,23 +66,23 @@ Theorem C11_no_partial_data : forall V C H render_o yload matches t pv d v i,
   rerender V = false ->
   (forall text w, yload text = Ok w -> wf w = true) ->
   compile V C H render_o yload matches t pv empty_item = Ok (d, v, i) ->
-  exists ps, spec_pieces C render_o yload matches t = Ok ps /\ merge_all C ps = Ok d.
+  exists ps, spec_pieces V C H render_o yload matches t = Ok ps /\ merge_all C (map fst ps) = Ok d.
 Proof.
   intros V C H render_o yload matches t pv d v i Hr Hy E.
   pose proof (compile_spec V C H render_o yload matches t pv Hr Hy empty_item (item_ok_empty _ _ _ _ _ _)) as S.
   rewrite E in S. cbn [result_data] in S. unfold spec_result in S.
-  destruct (empty_raises V && empty_pieces_case C render_o yload matches t); [discriminate|].
-  unfold get_data_spec in S. destruct (spec_pieces C render_o yload matches t) as [ps|x]; cbn [bind] in S; [|discriminate].
+  destruct (empty_raises V && empty_pieces_case V C H render_o yload matches t); [discriminate|].
+  unfold get_data_spec in S. destruct (spec_pieces V C H render_o yload matches t) as [ps|x]; cbn [bind] in S; [|discriminate].
   now exists ps.
 Qed.
 Print Assumptions C11_no_partial_data.
 
 (* the expansion never runs out of fuel: a name and its ".init" alias are the only two names that reach
    one file, and the chain of including files is free of duplicates *)
-Theorem C11_terminates : forall C render_o yload t fl,
-  expand_spec C render_o yload t (fuel_for t) [[s_topfile]] (map name_of_top_elem fl) <> Err OutOfFuel.
+Theorem C11_terminates : forall V C H render_o yload t fl,
+  expand_spec V C H render_o yload t (fuel_for t) [[s_topfile]] (map name_of_top_elem fl) <> Err OutOfFuel.
 Proof.
-  intros C render_o yload t fl. apply expand_noof.
+  intros V C H render_o yload t fl. apply expand_noof.
   - split; [repeat constructor; intros []|]. exists [s_topfile], []. split; [reflexivity | constructor].
   - apply Forall_forall. intros r Hr. apply in_map_iff in Hr as [x [<- _]]. destruct x; discriminate.
   - unfold fuel_for. cbn [length]. lia.
@@ -98,7 +98,7 @@ Proof.
   intros V C H render_o yload t fl oc Hr Hy Hoc E.
   pose proof (pfiles_rel V C H render_o yload t Hr Hy oc Hoc (fuel_for t) [[s_topfile]] (map name_of_top_elem fl) []
                 (nc_ok_nil _ _ _ _ _)) as R.
-  rewrite E in R. now apply (C11_terminates C render_o yload t fl).
+  rewrite E in R. now apply (C11_terminates V C H render_o yload t fl).
 Qed.
 Print Assumptions C11_terminates_model.
 
@@ -135,7 +135,7 @@ Definition case_empty : case :=
      cT := [([bytes_of_string "top.yaml"], File T_top); ([bytes_of_string "a.yaml"], File T_a)];
      cPv := [] |}.
 Theorem C11_refuted_empty_pieces :
-  run_model case_empty = Err ValueError /\ run_spec (cC case_empty) (cO case_empty) (cT case_empty) = Ok [] /\
+  run_model case_empty = Err ValueError /\ run_spec (cV case_empty) (cC case_empty) (cO case_empty) (cT case_empty) = Ok [] /\
   holds case_empty (run_model case_empty) = ["empty_piece_list_raises"%string] /\
   holds case_empty (run_model {| cV := current_variants; cC := cC case_empty; cO := cO case_empty; cT := cT case_empty; cPv := [] |}) = [].
 Proof. repeat split; vm_compute; reflexivity. Qed.
